@@ -11,7 +11,6 @@ package c09
 //   cpkg   package of the creating function  cfn    creating function inside that package
 //   ego    the creating function belongs to module github.com/tucats/ego
 //   frames number of (*Context).RunFromAddress calls on its stack
-//   top    function at the top of its stack  (information only)
 
 import (
 	"bufio"
@@ -24,6 +23,7 @@ import (
 	"regexp"
 	"runtime"
 	"runtime/pprof"
+	"sort"
 	"strconv"
 	"strings"
 	"testing"
@@ -44,7 +44,6 @@ type gRec struct {
 	Cfn    string `json:"cfn"`
 	Ego    bool   `json:"ego"`
 	Frames int    `json:"frames"`
-	Top    string `json:"top"`
 }
 
 type job struct {
@@ -72,7 +71,31 @@ type event struct {
 	Driver int              `json:"driver"`
 	N      int              `json:"n"`
 	Trunc  bool             `json:"trunc"` // Final: the process stopped executing jobs early (resource guard, see maxG)
-	Snap   []gRec           `json:"snap"`
+	// the goroutine table is logged as a difference to the table of the previous event of this process:
+	Add []gRec `json:"add"` // goroutines that are new, or whose projection changed
+	Del []int  `json:"del"` // ids that are gone
+}
+
+// differ turns successive full tables into differences (pure bookkeeping: table(k) = table(k-1) minus Del, overridden by Add)
+type differ struct{ prev map[int]gRec }
+
+func (d *differ) delta(snap []gRec) ([]gRec, []int) {
+	add, del := []gRec{}, []int{}
+	cur := make(map[int]gRec, len(snap))
+	for _, g := range snap {
+		cur[g.ID] = g
+		if old, ok := d.prev[g.ID]; !ok || old != g {
+			add = append(add, g)
+		}
+	}
+	for id := range d.prev {
+		if _, ok := cur[id]; !ok {
+			del = append(del, id)
+		}
+	}
+	sort.Ints(del)
+	d.prev = cur
+	return add, del
 }
 
 const modulePrefix = "github.com/tucats/ego/"
@@ -120,13 +143,6 @@ func snapshot() []gRec {
 			cur.Cpkg, cur.Cfn = splitFn(m[1])
 			cur.Ego = strings.HasPrefix(m[1], modulePrefix)
 			continue
-		}
-		if cur.Top == "" {
-			if p := strings.LastIndex(line, "("); p > 0 {
-				cur.Top = line[:p]
-			} else {
-				cur.Top = line
-			}
 		}
 		if strings.HasPrefix(line, runFrame) {
 			cur.Frames++
@@ -283,7 +299,9 @@ func TestVerifC09(t *testing.T) {
 		t.Fatal(err)
 	}
 	w := bufio.NewWriterSize(of, 1<<20)
+	df := &differ{prev: map[int]gRec{}}
 	emit := func(e event) {
+		e.Add, e.Del = df.delta(snapshot())
 		if e.Marks == nil {
 			e.Marks = []string{}
 		}
@@ -308,14 +326,14 @@ func TestVerifC09(t *testing.T) {
 	quiesce(300*time.Millisecond, 10*time.Second)
 
 	me := selfID()
-	emit(event{Ev: "Base", Driver: me, N: runtime.NumGoroutine(), Snap: snapshot()})
+	emit(event{Ev: "Base", Driver: me, N: runtime.NumGoroutine()})
 
 	perExec := time.Duration(envInt("VERIF_SETTLE_MS", 60)) * time.Millisecond
 	finalEvery := envInt("VERIF_FINAL_EVERY", 150)
 	sinceFinal := 0
 	final := func(trunc bool) {
 		quiesce(time.Duration(envInt("VERIF_STILL_MS", 400))*time.Millisecond, 20*time.Second)
-		emit(event{Ev: "Final", N: runtime.NumGoroutine(), Trunc: trunc, Snap: snapshot()})
+		emit(event{Ev: "Final", N: runtime.NumGoroutine(), Trunc: trunc})
 		sinceFinal = 0
 	}
 	// resource guard, not a verdict: a process that has accumulated this many goroutines stops taking jobs (its log so far
@@ -346,7 +364,7 @@ func TestVerifC09(t *testing.T) {
 				text = text[:200]
 			}
 			emit(event{Ev: "Exec", Job: ji, Rep: rep, Path: j.Path, Key: j.Key, Kind: kind, Err: text, Marks: cp.take(),
-				HasExp: j.HasExp, Expect: j.Expect, N: runtime.NumGoroutine(), Snap: snapshot()})
+				HasExp: j.HasExp, Expect: j.Expect, N: runtime.NumGoroutine()})
 			sinceFinal++
 			if runtime.NumGoroutine() > maxG {
 				truncated = true
